@@ -13,11 +13,10 @@ CFG = {
         "blocking is observed on the real code as 'did not return within 2 s' (microseconds expected): the only timing-based observable",
     ],
     "assumptions": [
-        "C12_cache_bounded: no round cache is used by two signer indices (the full statement is refuted: class C12-shared-round-bypasses-cap)",
         "C12_isolation_chained: chained scheme, the victim signs at most MaxPartialsPerNode ids, its partials originate from it (replays allowed)",
         "C12_put_partial / C12_put_others_served: at most CallbackWorkerQueue dispatched beacons in the run (the full statement is refuted: class C12-put-blocks-on-stalled-consumer)",
         "stored rounds reach the aggregator in non-decreasing order (appendStore)",
     ],
-    "level_text": "Proved for ALL operation lists over faithful models of cache.go and of callbackStore (store.go): structural invariants of the partial cache; isolation by signer index in every state; per-signer bounds (cap round caches, |rcvd| <= 2cap+1 - tight, counting the id the eviction path appends twice -, cap x signers round caches) when round caches are not shared between indices; at most limit+1 distinct cached rounds under the store window; a victim that signs <= cap ids is never evicted on the chained scheme; runs with <= queue beacons never block and serve every registered consumer. Refuted with kernel-checked witnesses that are replayed on the real code on every run: the bounds for shared round caches, isolation on unchained schemes, non-blocking Put (incl. 'disconnect does not unwedge'). Models are compared with the real partialCache / NewCallbackStore on generated floods and gated-consumer schedules; constants and window shape are regenerated from the source.",
+    "level_text": "Proved for ALL operation lists over faithful models of cache.go and of callbackStore (store.go): structural invariants of the partial cache (the ids recorded for an index are exactly the round caches it is in); per-signer bounds for every list, shared round caches included (each index in at most cap round caches, |rcvd idx| <= cap, at most cap x signers round caches; C12_cache_bounded), no eviction ever meets a missing round cache; isolation by signer index in every state; at most limit+1 distinct cached rounds under the store window; a victim that signs <= cap ids is never evicted on the chained scheme; runs with <= queue beacons never block and serve every registered consumer. Refuted with kernel-checked witnesses that are replayed on the real code on every run: isolation on unchained schemes, non-blocking Put (incl. the wedge surviving a disconnect). The floods that used to break the cache bounds are kept as regression cases in the model (C12_floods_repaired) and in the engine. Models are compared with the real partialCache / NewCallbackStore on generated floods and gated-consumer schedules; constants and window shape are regenerated from the source.",
     "level_note": "Kernel-checked, no axioms. Go scheduling below the modelled steps, gRPC flow control (when a non-reading client makes Send block) and MaxConcurrentStreams are not verified.",
 }
